@@ -83,6 +83,16 @@ func (s mSchema) String() string {
 	return "[" + strings.Join(parts, " ") + "]"
 }
 
+// canon is the schema as a SET of types: the statement says nothing about the order of the list after an edit.
+func (s mSchema) canon() string {
+	parts := []string{}
+	for _, t := range s {
+		parts = append(parts, t.String())
+	}
+	sort.Strings(parts)
+	return "{" + strings.Join(parts, " ") + "}"
+}
+
 func (s mSchema) find(name string) int {
 	for i := range s {
 		if s[i].Name == name {
@@ -358,7 +368,7 @@ func (m c14) historyMode(c *Ctx, ops []c14op, blind bool) {
 			nOK++
 			c.Count("op_ok/" + o.Op)
 			model = m.apply(pre, o)
-			if snap.String() != model.String() {
+			if snap.canon() != model.canon() {
 				c.Violate("success-state-mismatch/"+o.Op+m.twoWayClass(pre, o), "after successful %s the schema is %s, the edit applied to the previous state gives %s\n%s", o.Op, snap, model, hist())
 				return
 			}
